@@ -7,6 +7,9 @@ import l1
 
 NEEDS = ("runner", "cli")
 SKIPS = [m_list("serde", [m_path("skip")]), m_list("typeshare", [m_path("skip")])]
+LOOKALIKES = [m_list("serde", [m_path("skip_serializing")]), m_list("serde", [m_path("skip_deserializing")]),
+              m_list("serde", [m_nv("skip_serializing_if", lit_s("Option::is_none"))]), m_list("serde", [m_path("skipped")]),
+              m_list("typeshare", [m_path("skip_me")]), m_list("serde", [m_nv("skip", lit_s("no"))]), m_list("other", [m_path("skip")])]
 
 
 def type_slots(file):
@@ -184,6 +187,13 @@ def run(check):
         mreq, rreq, text = l1.requests(f, g)
         cases.append(dict(kind=kind, skipped=False, m=mreq, r=rreq, text=text))
         check.count(kind.split(" depth")[0])
+        # the same program with an attribute on the enclosing member that only *looks* like a skip marker (the member stays on
+        # the wire in one direction / is not skipped at all): the construct must still be rejected
+        if member is not None and "attrs" in member:
+            member["attrs"] = member["attrs"] + [rng.choice(LOOKALIKES)]
+            mreq1, rreq1, text1 = l1.requests(f, g)
+            cases.append(dict(kind=kind + " (member carries a skip look-alike)", skipped=False, m=mreq1, r=rreq1, text=text1))
+            check.count("skip-look-alike")
         # the same program with the enclosing member skipped
         if member is not None and "attrs" in member and kind not in ("two-payloads",) or (kind == "two-payloads"):
             f2 = f
